@@ -697,6 +697,33 @@ func c07Render(r *RNG, ch *ast.Chain) string {
 	return b.String()
 }
 
+// c07LongSum: a compact source `x=1<<3 / return x+x+…+x` whose printed form (`x + x + …`) is much
+// longer than the source: parse, print, parse again, print again — the trees and the texts must be
+// identical (an input limit or work cap in the parser breaks exactly this).
+func c07LongSum(g *Gen, terms int) {
+	src := "x=1<<3\nreturn x" + strings.Repeat("+x", terms) + "\n"
+	d1, ch := c07ParseText(src)
+	g.Count("long-sum-roundtrip")
+	if ch == nil {
+		g.Notes = append(g.Notes, fmt.Sprintf("VIOLATION: a sum of %d terms (%d bytes) does not parse: %s", terms+1, len(src), d1))
+		return
+	}
+	_, text, ok := c07PrintChain(ch)
+	if !ok {
+		g.Notes = append(g.Notes, fmt.Sprintf("VIOLATION: the tree of a sum of %d terms does not print", terms+1))
+		return
+	}
+	d2, ch2 := c07ParseText(text)
+	if ch2 == nil || d2 != d1 {
+		g.Notes = append(g.Notes, fmt.Sprintf("VIOLATION: the printed form (%d bytes) of a sum of %d terms (%d bytes of source) parses to %s instead of the same tree", len(text), terms+1, len(src), c12Tail(d2, 60)))
+		return
+	}
+	_, text2, ok2 := c07PrintChain(ch2)
+	if !ok2 || text2 != text {
+		g.Notes = append(g.Notes, fmt.Sprintf("VIOLATION: formatting a sum of %d terms is not idempotent", terms+1))
+	}
+}
+
 func genC07(g *Gen) {
 	// the generated parser allocates heavily on every failing parse; a relaxed GC halves the wall time
 	// (collect only when the heap approaches 3 GiB)
@@ -738,7 +765,9 @@ func genC07(g *Gen) {
 	for _, n := range []int{65536, 1 << 20} {
 		head := "x = 1 << 3\nreturn x"
 		g.Line(c07ParseLine(head + strings.Repeat(" ", n-len(head)) + "+ x\n")...)
-		// (a long *sum* is not generated: the list-based printer model is quadratic in the number of terms)
+		// (a long *sum* is not given to the driver: the list-based printer model is quadratic in the
+		// number of terms; the round trip of such a script is judged here, on the implementation alone)
+		c07LongSum(g, n/3)
 		g.Count("long-input")
 	}
 	// (f) literal edge cases and F8
